@@ -39,6 +39,7 @@ print(json.dumps(out))
 '''
 
 
+@T.plain_rng
 def fresh_interpreter(ctx, scns):
     """pickle in this process, restore and continue in a fresh interpreter, compare with the original"""
     jobs, expect = [], []
